@@ -75,15 +75,19 @@ pub fn judge_case(c: &Case) -> Obs {
     if out.stop == Stop::OutOfFuel {
         obs.set_fail(
             "C16:session-does-not-return",
-            format!("{} loop iterations spent for {} executed instructions and {} commands; the program itself stops after {} instructions\n{shown}\n--- debugger output ---\n{}", out.ticks, out.execs, ncmds, rr.steps, clip(&err)),
+            format!("{} run-loop + {} debugger-loop iterations spent for {} executed instructions and {} commands; the program itself stops after {} instructions\n{shown}\n--- debugger output ---\n{}", out.ticks, out.inner_ticks, out.execs, ncmds, rr.steps, clip(&err)),
         );
         return obs;
     }
     let bound = 2 * (out.execs + ncmds) + 4;
-    if out.ticks > bound {
+    let inner_bound = 3 * (out.execs + ncmds) + 6;
+    if out.ticks > bound || out.inner_ticks > inner_bound {
         obs.set_fail(
             "C16:work-not-bounded",
-            format!("{} loop iterations for {} executed instructions and {} commands (bound {bound})\n{shown}", out.ticks, out.execs, ncmds),
+            format!(
+                "{} run-loop iterations (bound {bound}) and {} iterations of the debugger's own loop (bound {inner_bound}) for {} executed instructions and {} commands\n{shown}",
+                out.ticks, out.inner_ticks, out.execs, ncmds
+            ),
         );
     }
     obs
@@ -91,7 +95,16 @@ pub fn judge_case(c: &Case) -> Obs {
 
 fn cases() -> impl Strategy<Value = Case> {
     let ending = prop_oneof![3 => Just(Ending::JmpFfff), 2 => Just(Ending::BelowOrigin), 2 => Just(Ending::AboveUser), 2 => Just(Ending::Halt), 1 => Just(Ending::HaltMiddle), 1 => Just(Ending::RunOff), 1 => Just(Ending::UnknownTrap)];
-    (proggen::prog_spec(12), ending, prop::collection::vec(raw_cmd(), 0..12), 0u8..3).prop_map(|(mut spec, ending, cmds, end)| {
+    let mixed = prop::collection::vec(raw_cmd(), 0..12);
+    // step-heavy scripts walk through the program, so that `step` lands on every call
+    let steppy = prop::collection::vec(
+        (prop::sample::select(vec![0u8, 0, 0, 0, 0, 3, 6, 8]), raw_cmd()).prop_map(|(k, mut r)| {
+            r.kind = k;
+            r
+        }),
+        4..40,
+    );
+    (proggen::prog_spec(12), ending, prop_oneof![3 => mixed, 2 => steppy], 0u8..3).prop_map(|(mut spec, ending, cmds, end)| {
         spec.ending = ending;
         Case { spec, cmds, end }
     })
@@ -102,8 +115,8 @@ impl Prop for C16 {
         "C16"
     }
     fn rule(&self) -> &'static str {
-        "ProgGen programs whose reference run stops within a known bound, with endings weighted towards computed jumps to 0xFFFF, below the origin, to >= 0xFE00 and parking on HALT x scripts of 0-11 resuming / breakpoint commands (step, step into k incl. 65535, step out, continue, break add/remove) ended by end of input, `exit` or `quit`. \
-         Oracle (the statement's own bound, decided by deterministic fuel, never a timer): with ticks = iterations of the run loop (hook H3), execs = executed instructions (H4), cmds = commands + 1: the session returns before 8*(bound + cmds) + 64 iterations and ticks <= 2*(execs + cmds) + 4. \
+        "ProgGen programs whose reference run stops within a known bound, with endings weighted towards computed jumps to 0xFFFF, below the origin, to >= 0xFE00 and parking on HALT x scripts of 0-11 mixed (or 4-39 step-heavy) resuming / breakpoint commands (step, step into k incl. 65535, step out, continue, break add/remove) ended by end of input, `exit` or `quit`. \
+         Oracle (the statement's own bound, decided by deterministic fuel, never a timer): with ticks = iterations of the run loop (hook H3), execs = executed instructions (H4), cmds = commands + 1: with inner = iterations of the debugger's own loop (H6), which shares the fuel: the session returns before 8*(bound + cmds) + 64 iterations in total, ticks <= 2*(execs + cmds) + 4 and inner <= 3*(execs + cmds) + 6. \
          Non-trivial: the session reaches a PC outside user space or parks on HALT and issues >= 1 resuming command. Distinct = hash(source, script)."
     }
     fn level(&self) -> &'static str {
